@@ -52,6 +52,12 @@ def gen_verdict_decls(rng, tier):
     b.add("i32", ok_attr, "meta:unsupported_attribute", attrs=[("allow", "#[allow(dead_code)]")])
     b.add("i32", ok_attr, "meta:derive_attribute", attrs=[("derive", "#[derive(Clone)]")])
     b.add("i32", ok_attr, "ok", attrs=[("doc", "/// documented")])
+    b.add("i32", ok_attr, "ok", attrs=[("doc", "/// documented"), ("doc", "#[doc = \"twice\"]")])
+    b.add("i32", ok_attr, "meta:derive_attribute", attrs=[("doc", "/// documented"), ("derive", "#[derive(Clone)]")])
+    b.add("i32", ok_attr, "meta:unsupported_attribute", attrs=[("doc", "/// documented"), ("repr", "#[repr(transparent)]")])
+    b.add("i32", ok_attr, "meta:unsupported_attribute", attrs=[("doc", "/// documented"), ("non_exhaustive", "#[non_exhaustive]")])
+    b.add("i32", ok_attr, "meta:derive_attribute", attrs=[("derive", "#[derive(Clone)]"), ("doc", "/// documented")])
+    b.add("String", [block("validate", [[tid("not_empty")]]), D(["Debug"])], "meta:derive_attribute", attrs=[("doc", "/// a"), ("doc", "/// b"), ("derive", "#[derive(Default)]")])
     b.add("i32", ok_attr, "meta:not_tuple_struct", kind="named")
     b.add("i32", ok_attr, "meta:not_tuple_struct", kind="unit")
     b.add("i32", ok_attr, "meta:not_tuple_struct", kind="enum")
@@ -435,7 +441,8 @@ def gen_c02_decls(rng, tier):
                        ([NE, MX, MN], [("len_char_min", ("s", EM)), ("len_char_max", ("s", ZH * 5))])):
         presence("String", items, wit)
     # ---- sanitizers run in the written order: expected value computed here (ASCII inputs only), not by the model
-    PY_SAN = {"trim": lambda s_: s_.strip(" "), "lowercase": lambda s_: s_.lower(), "uppercase": lambda s_: s_.upper(),
+    RUST_WS = "".join(chr(c_) for c_ in list(range(9, 14)) + [0x20, 0x85, 0xA0, 0x1680] + list(range(0x2000, 0x200B)) + [0x2028, 0x2029, 0x202F, 0x205F, 0x3000])
+    PY_SAN = {"trim": lambda s_: s_.strip(RUST_WS), "lowercase": lambda s_: s_.lower(), "uppercase": lambda s_: s_.upper(),
               "W0": lambda s_: s_ + "!", "W1": lambda s_: s_.upper(), "W2": lambda s_: s_[:3]}
     chains = [["W0", "trim"], ["trim", "W0"], ["W2", "trim"], ["trim", "W2"], ["W2", "trim", "lowercase"], ["lowercase", "W2", "trim"],
               ["W0", "trim", "uppercase"], ["uppercase", "W0", "trim"], ["trim", "W2", "lowercase"], ["W2", "lowercase"], ["lowercase", "W0"],
@@ -450,7 +457,8 @@ def gen_c02_decls(rng, tier):
             continue            # two `with` sanitizers are refused (duplicate kind)
         d = b.add("String", [block("sanitize", sitems, trailing=bool(ci % 2)), D(["Debug"])], "sanorder")
         d.tags.add("sanorder")
-        ins = [" Ab ", "AB CD", "  x", "a_b ", " ", "", "abc  ", "  ABCD  ", "A b", " a b c d "]
+        ins = [" Ab ", "AB CD", "  x", "a_b ", " ", "", "abc  ", "  ABCD  ", "A b", " a b c d ",
+               "\u00a0Ab\u3000", "\u2003x", "ab\u0085", "\u000bAB\u000c", "\u00a0", "\u3000a b\u2028"]
         d.expected = []
         for s_ in ins:
             v = s_
@@ -571,6 +579,11 @@ def gen_gentest_decls(rng, tier):
         b.add("String", [block("sanitize", [[tid("trim")]]), block("validate", [[tid("not_empty")]]), [tid("default"), EQ, tx(estr(dv))], D(["Debug", "Default"])], "gentest")
     for dv in ([1], [], [1, 2, 3, 4, 5]):
         b.add("Vec<i32>", [block("validate", [[tid("predicate"), EQ, tfn(0, "p", "p")]]), [tid("default"), EQ, tx(elist(dv))], D(["Debug", "Default"])], "gentest")
+    # custom validation: the default test is emitted too
+    WC, EC = [tid("with"), EQ, tfn(0, "p", "c")], [tid("error"), EQ, tpath("CErr")]
+    for ty, dvs in (("i32", [li(5), li(-5), li(500)]), ("f64", [lf("1.5"), lf("-1.5"), lf("500.0")]), ("String", [tx(estr("ab")), tx(estr("xab")), tx(estr(""))])):
+        for dv in dvs:
+            b.add(ty, [block("validate", [WC, EC]), [tid("default"), EQ, dv], D(["Debug", "Default"])], "gentest")
     # no validation / generic: no default test is emitted
     b.add("i32", [[tid("default"), EQ, li(5)], D(["Debug", "Default"])], "gentest")
     for d in b.decls:
